@@ -63,7 +63,7 @@ CHECKS = {
          "4 C06"),
  "C08": ("model_checking",
          "bounded-exhaustive trie search with invariants on the public result, cross-checked against per-context evaluations on fresh states",
-         "Every string over the SQL byte (<=4), fragment (<=3/<=4), token-class (<=4/<=5, core to 6/7) alphabets and every fixture cut: false comes with the empty string; a returned fingerprint has 1-5 class characters, the comment class only last, is a blacklist member by the real look-up, and equals the fingerprint of the first firing reachable context evaluated on a fresh state.",
+         "Every string over the SQL byte (<=4), fragment (<=3/<=4), token-class (<=4/<=5, core to 6/7) alphabets and every fixture cut: false comes with the empty string; a returned fingerprint has 1-5 class characters, the comment class only last, is a blacklist member by the real look-up, equals the fingerprint of the first firing reachable context evaluated on a fresh state, and is one of the six fingerprints the reference algorithm (refsql) gives for the input.",
          "Per-context results come from the accessor (sqliFingerprint + checkFingerprint on a fresh state).",
          "4 C08"),
  "C10": ("model_checking",
@@ -73,8 +73,8 @@ CHECKS = {
          "4 C10"),
  "C12": ("model_checking",
          "bounded-exhaustive trie search; cascade recomputed from fresh-state contexts, virtual-quote differential, and exhaustive 2-step (thorough 3-step) mode histories on one reused scanner object",
-         "Every string over the SQL byte (<=3/<=4), fragment (<=3/<=4), token-class (<=3/<=4) alphabets and fixture cuts: (A) IsSQLi equals the first firing element of the documented cascade computed from per-context results on fresh states; (B) reading s inside a quote equals reading quote+s as-is (fingerprint, token classes; verdict unless sos/s&s) for both quotes and dialects; (C) every ordered pair (triple in thorough) of the six modes on ONE scanner object reproduces the fresh-state result including counters.",
-         "The re-parse gate is read from the ANSI pass' own counters.",
+         "Every string over the SQL byte (<=3/<=4), fragment (<=3/<=4), token-class (<=3/<=4) alphabets and fixture cuts: (A) IsSQLi equals the first firing element of the documented cascade computed from per-context results on fresh states, and the re-parse gate of each ANSI pass agrees with the '#' / '--x' comment counts of the reference scanner; (B) reading s inside a quote equals reading quote+s as-is (fingerprint, token classes; verdict unless sos/s&s) for both quotes and dialects; (C) every ordered pair (triple in thorough) of the six modes on ONE scanner object reproduces the fresh-state result including counters.",
+         "The re-parse gate is read from the ANSI pass' own counters and compared with the reference scanner's counts.",
          "4 C12"),
  "C14": ("model_checking",
          "model checking of the token-class abstraction (all {n,1} sequences vs the real blacklist) + exhaustive conformance of the abstraction to the code (all short identifiers, all word/number sequences to length 7/8, all shape fillings)",
